@@ -3,8 +3,9 @@ import os, sys, json
 from concurrent.futures import ThreadPoolExecutor
 sys.path.insert(0, os.path.join(os.path.dirname(os.path.abspath(__file__)), '..', 'lib'))
 import vcommon as V
+import e2e
 
-PROPS = ['props/C06.v']
+PROPS = ['props/C06.v', 'props/C06_pipeline.v', 'props/Pipeline.v']
 ASSUMPTIONS = [
     "time.Parse / time.Date / time.Until of the Go standard library (go1.23) are modelled by hand for the single layout "
     "\"2006-01-02T15:04:05Z\" (model/Expiry.v), not assumed; the model is compared with the Go code on every run "
@@ -38,21 +39,22 @@ def unhex(h):
 
 
 def run_driver(path):
-    rc, o = V.sh(DRIVER + ' < ' + path, timeout=1500)
+    out = path.replace('.in.', '.out.')
+    rc, o = V.sh(DRIVER + ' < ' + path + ' > ' + out, timeout=1500)
     if rc != 0:
         raise V.BuildError('expiry_driver failed on %s: %s' % (path, o[-1000:]))
-    return o.split('\n')
+    return out
 
 
 def model_lines(tsv):
+    """runs the extracted model on the NSHARD input files in parallel; yields its output lines in case order"""
     files = [tsv + '.in.%d' % k for k in range(NSHARD)]
-    out = []
     with ThreadPoolExecutor(max_workers=NSHARD) as ex:
-        for lines in ex.map(run_driver, files):
-            if lines and lines[-1] == '':
-                lines.pop()
-            out.extend(lines)
-    return out
+        outs = list(ex.map(run_driver, files))
+    for o in outs:
+        with open(o) as f:
+            for line in f:
+                yield line.rstrip('\n')
 
 
 def coq_str(b):
@@ -60,7 +62,7 @@ def coq_str(b):
 
 
 def correspondence(ctx):
-    n = 250000 if ctx.tier == 'quick' else 6000000
+    n = 250000 if ctx.tier == 'quick' else 8000000
     nsample = 240 if ctx.tier == 'quick' else 1500
     V.sh([os.path.join(V.ROOT, 'tools', 'build_extract.sh'), 'expiry'], check=True)
     binp = ctx.go_build('c06')
@@ -69,6 +71,7 @@ def correspondence(ctx):
     if rc != 0:
         raise V.BuildError('c06 harness failed: ' + o[-2000:])
     mlines = model_lines(tsv)
+    END = object()
     corr = V.Corr()
     distinct = set()
     ambiguous = 0
@@ -78,9 +81,10 @@ def correspondence(ctx):
         k = -1
         for k, line in enumerate(f):
             cid, klass, hx, lo, hi, impl, parse, oracle = line.rstrip('\n').split('\t')
-            if k >= len(mlines):
+            ml = next(mlines, END)
+            if ml is END:
                 raise V.BuildError('model output shorter than case file')
-            mf = mlines[k].split(' ')
+            mf = ml.split(' ')
             mparse, mlo, mhi = ' '.join(mf[:-2]), mf[-2], mf[-1]
             corr.distribution[klass] = corr.distribution.get(klass, 0) + 1
             case = {'id': int(cid), 'klass': klass, 'input': {'hex': hx, 'text': unhex(hx).decode('utf-8', 'replace'),
@@ -101,7 +105,7 @@ def correspondence(ctx):
             elif impl != mlo:
                 corr.disagreements.append({'klass': klass, 'case': case, 'impl': impl, 'model': mlo})
             else:
-                distinct.add(hx)
+                distinct.add(hash(hx))
                 if impl == 'O':
                     accepted += 1
                 else:
@@ -109,8 +113,8 @@ def correspondence(ctx):
                 lst = per_class_sample.setdefault(klass + impl, [])
                 if len(lst) < nsample:
                     lst.append((int(cid), hx, lo, hi, impl, parse))
-        if k + 1 != len(mlines):
-            raise V.BuildError('case file has %d lines, model output %d' % (k + 1, len(mlines)))
+        if next(mlines, END) is not END:
+            raise V.BuildError('model output longer than the case file (%d lines)' % (k + 1))
         corr.evaluations = k + 1
     # drop oracle contradictions from the disagreement list (they already carry a concrete input)
     bad = set(v['case']['id'] for v in corr.violations)
@@ -149,12 +153,22 @@ def correspondence(ctx):
                  "1..2000 years}, every field at/over its bounds (00/13 months, day 00/29/30/31/32 per month and leap rule, 24:00:00, 23:59:60), "
                  "fractional seconds with '.' ',' and other separators and 0..40 digits, one-character deletions/insertions/replacements/"
                  "swaps/truncations at every position, lower-case t/z, zone suffixes, 29 other layouts (RFC1123, RFC3339, date only ...), "
-                 "Unix numbers, random bytes, non-ASCII digits, one-digit hour, empty; plus a fixed corpus. "
+                 "Unix numbers, random bytes, non-ASCII digits, one-digit hour, empty; plus a fixed corpus; thorough tier adds the enumeration of "
+                 "02-29 / 03-01 / 12-31 for every year 0000-9999, months 00-13 x days 00-32 for 126 years, and h 0-25 x m 0-61 x s 0-61. "
                  "non-trivial = every case whose verdict does not depend on the clock reading inside the widened bracket; distinct = distinct strings")
+    # pipeline level: expired / undated layouts in otherwise accepting supply chains, both wrappers and both
+    # entry points; no inspection may run (harness/e2e, focus c06; theorems in props/C06_pipeline.v)
+    n = 40 if ctx.tier == 'quick' else 400
+    corr = e2e.run_focus(ctx, 'c06', n, corr=corr)
+    corr.rule += ("; PIPELINE LEVEL: %d generated supply chains whose only defect is the expiry (expired long ago / 3 s ago, garbage, empty, "
+                  "zone offset, date only, lower case; valid: +1 h, year 9999, fractional second) with logging inspections: verdict, summary "
+                  "and inspections executed compared with the pipeline model" % n)
     return corr
 
 
 def replay(ctx, case):
+    if (case.get('klass') or '').startswith('c06/'):
+        return e2e.replay(ctx, case)
     binp = ctx.go_build('c06')
     p = os.path.join(ctx.dir, 'replay_case.json')
     json.dump(case.get('case', case), open(p, 'w'))
